@@ -18,6 +18,7 @@ REWARD_TWINS = {"n10s": "n10d", "n10d": "n10s", "n50d": "n50s", "n50s": "n50d"}
 
 class M(Model):
     ENV = "Knapsack"
+    REWARD_TWINS = REWARD_TWINS  # the C08 driver looks the table up on the model instance
 
     def __init__(self, b):
         super().__init__(b)
@@ -103,10 +104,23 @@ class M(Model):
         return out
 
     # ---- C08
+    def _ended_by_illegal(self, ep):
+        if not ep.states:
+            return False
+        prev = ep.states[-2] if len(ep.states) >= 2 else ep.s0
+        a = int(ep.actions[-1])
+        return not (0 <= a < self.N and bool(self.legal(prev)[a]))
+
     def objective(self, ep):
         s = ep.states[-1] if ep.states else ep.s0
         _, v, p, _ = self._arrays(s)
+        if not self.dense and self._ended_by_illegal(ep):
+            return 0.0, 1e-6  # documented: the (only, final) sparse reward is 0 if the action is invalid
         return float(v.astype(np.float64)[p].sum()), 1e-4
+
+    def twin_applicable(self, ep):
+        # dense and sparse are the same objective on legal trajectories only
+        return not self._ended_by_illegal(ep)
 
     # ---- C09
     def predict(self, s, a):
